@@ -96,6 +96,17 @@ def go (e : Env) (s : St) (started : Bool) (toks : List String) (acc : List Stri
             | .ok => go { e with created := k :: e.created } s' true rest ("ok" :: acc)
             | .panic c => go e s' true rest (s!"panic:{c}" :: acc)
       | _, _, _ => "bad-op"
+    | ["cn", b, v, m] =>
+      let s := start e s
+      match parseNat b, parseNat v with
+      | some b, some v =>
+        if v ≥ e.vars.length ∨ ¬ (s.blds b).alive then "bad-op" else
+        match step Cfg.fixed s (.cancelM b v m) with
+        | none => "unmodelled"
+        | some (s', st) =>
+          let o := match st with | .ok => "ok" | .panic c => s!"panic:{c}"
+          go { e with maxB := max e.maxB b } s' true rest (o :: acc)
+      | _, _ => "bad-op"
     | ["rs", b] =>
       let s := start e s
       match parseNat b with
